@@ -95,4 +95,271 @@ Lemma checksig_core_err tmp ops e sig pk : raw_iter tmp = (ops, Some e) -> lenZ 
 Proof.
   intros E H. rewrite (push_of_ref sig H). cbn [bind]. now rewrite (fad_model_err tmp (ref_push sig) ops e E).
 Qed.
+
+Notation exec := (exec checksig ripemd160 sha1 sha256 fl).
+Notation exec_op := (exec_op checksig ripemd160 sha1 sha256 fl).
+
+Ltac lens := rewrite ?len_cons, ?len_nil in *;
+  repeat match goal with
+         | |- context [len ?l] => lazymatch goal with H : 0 <= len l |- _ => fail | _ => pose proof (len_nonneg l) end
+         | H : context [len ?l] |- _ => lazymatch goal with H' : 0 <= len l |- _ => fail | _ => pose proof (len_nonneg l) end
+         end; lia.
+
+(* CHECKSIG / CHECKSIGVERIFY on a script whose code from pbegincodehash parses *)
+Lemma sim_checksig scriptIn r pb o rest vfy ops :
+  let tmp := py_slice scriptIn pb (lenZ scriptIn) in
+  raw_iter tmp = (ops, None) -> code_rel tmp (r_sub r) -> Forall small (r_stack r) ->
+  ref_kind (sop_opcode o) = KChecksig vfy ->
+  sim1 (exec scriptIn (abs r pb) o (KChecksig vfy)) (exec_op (sop_opcode o) rest r) pb.
+Proof.
+  intros tmp E R S K. unfold ScriptRef.exec_op. rewrite K. unfold ScriptEval.exec, abs, sim1, set_stack.
+  cbn [stack altstack vfExec pbegincodehash nOpCount]. fold tmp.
+  destruct r as [st al vf sub nop]. cbn [r_stack r_alt r_vf r_sub r_nop with_stack] in *.
+  destruct st as [|pk [|sig st]].
+  - rewrite check_args_rev_fail by lens. reflexivity.
+  - rewrite check_args_rev_fail by lens. reflexivity.
+  - rewrite check_args_rev_ok by lens. cbn [bind].
+    rewrite (py_nth_rev _ 1 pk) by (first [lia|reflexivity]). rewrite (py_nth_rev _ 2 sig) by (first [lia|reflexivity]). cbn [bind].
+    assert (Hs : lenZ sig < 2^32).
+    { inversion S as [|? ? _ S']; subst. inversion S' as [|? ? Ss _]; subst. unfold small in Ss. lia. }
+    pose proof (checksig_core tmp sub ops sig pk E R Hs) as C.
+    destruct (push_of sig) as [p|e] eqn:Ep; cbn [bind] in C |- *; [|discriminate C].
+    destruct (find_and_delete tmp p) as [tmp'|e] eqn:Ef; cbn [bind] in C |- *; [|discriminate C].
+    rewrite C. cbn [bind]. unfold do_checksig. cbn [r_sub].
+    set (ok := checksig sig pk _).
+    destruct ok, vfy; cbn [negb andb]; try reflexivity;
+      rewrite pop_n_rev by (cbn [length]; lia); cbn [bind skipn]; rewrite ?push_rev; reflexivity.
+Qed.
+(* … and when it does not parse: the tokeniser's exception, unless too few arguments *)
+Lemma checksig_unparsed scriptIn r pb o vfy ops e :
+  let tmp := py_slice scriptIn pb (lenZ scriptIn) in
+  raw_iter tmp = (ops, Some e) -> Forall small (r_stack r) ->
+  exec scriptIn (abs r pb) o (KChecksig vfy) = Err EvalErr \/ exec scriptIn (abs r pb) o (KChecksig vfy) = Err e.
+Proof.
+  intros tmp E S. unfold ScriptEval.exec, abs, set_stack. cbn [stack altstack vfExec pbegincodehash nOpCount]. fold tmp.
+  destruct r as [st al vf sub nop]. cbn [r_stack r_alt r_vf r_sub r_nop] in *.
+  destruct st as [|pk [|sig st]].
+  - left. rewrite check_args_rev_fail by lens. reflexivity.
+  - left. rewrite check_args_rev_fail by lens. reflexivity.
+  - right. rewrite check_args_rev_ok by lens. cbn [bind].
+    rewrite (py_nth_rev _ 1 pk) by (first [lia|reflexivity]). rewrite (py_nth_rev _ 2 sig) by (first [lia|reflexivity]). cbn [bind].
+    assert (Hs : lenZ sig < 2^32).
+    { inversion S as [|? ? _ S']; subst. inversion S' as [|? ? Ss _]; subst. unfold small in Ss. lia. }
+    pose proof (checksig_core_err tmp ops e sig pk E Hs) as C.
+    destruct (push_of sig) as [p|e'] eqn:Ep; cbn [bind] in C |- *; [|now injection C as ->].
+    destruct (find_and_delete tmp p) as [tmp'|e'] eqn:Ef; cbn [bind] in C |- *; [|now injection C as ->].
+    rewrite C. reflexivity.
+Qed.
+
+(* ---------- CHECKMULTISIG ---------- *)
+Lemma nth_error_skipn_hd {A} (l : list A) n x t : skipn n l = x :: t -> nth_error l n = Some x.
+Proof.
+  revert l. induction n as [|n IH]; intros [|y l] E; cbn in *; try discriminate; [now injection E as -> _|now apply IH].
+Qed.
+Lemma skipn_S_tl {A} (l : list A) n x t : skipn n l = x :: t -> skipn (S n) l = t.
+Proof.
+  revert l. induction n as [|n IH]; intros [|y l] E; cbn in *; try discriminate; [now injection E as _ ->|now apply IH].
+Qed.
+
+(* the `while success and sigs_count > 0` loop is the reference walk over the two lists *)
+Lemma ms_loop_walk (rs : list bytes) script ops vfy : raw_iter script = (ops, None) ->
+  forall keys sigs fuel isig ikey tk ts,
+  0 < isig -> 0 < ikey ->
+  skipn (Z.to_nat (isig - 1)) rs = sigs ++ ts -> skipn (Z.to_nat (ikey - 1)) rs = keys ++ tk ->
+  (length sigs <= length keys)%nat -> (length keys < fuel)%nat ->
+  ms_loop checksig fuel vfy (rev rs) script isig ikey (lenZ sigs) (lenZ keys)
+  = let ok := ms_walk checksig sigs keys (find_and_delete_ref script [xab]) in
+    if ok then Ok true else if vfy then Err EvalErr else Ok false.
+Proof.
+  intros E. induction keys as [|k keys IH]; intros sigs fuel isig ikey tk ts Hi Hk Ss Sk L F.
+  - destruct sigs; [|cbn in L; lia]. destruct fuel; [cbn in F; lia|]. reflexivity.
+  - destruct fuel as [|fuel]; [cbn in F; lia|].
+    destruct sigs as [|sg sigs].
+    + cbn [ms_loop lenZ length Z.of_nat]. reflexivity.
+    + assert (SC : lenZ (sg :: sigs) = lenZ sigs + 1) by (unfold lenZ; cbn [length]; lia).
+      assert (KC : lenZ (k :: keys) = lenZ keys + 1) by (unfold lenZ; cbn [length]; lia).
+      assert (P1 : 0 <= lenZ sigs) by (unfold lenZ; lia).
+      cbn [ms_loop]. rewrite SC, KC.
+      destruct (Z.gtb_spec (lenZ sigs + 1) 0); [|lia]. cbn [negb].
+      cbn [app] in Ss, Sk.
+      rewrite (py_nth_rev rs isig sg) by (try lia; eapply nth_error_skipn_hd; exact Ss).
+      rewrite (py_nth_rev rs ikey k) by (try lia; eapply nth_error_skipn_hd; exact Sk). cbn [bind].
+      rewrite (check_sig_parsed sg k script ops E). cbn [bind].
+      cbn [ms_walk]. cbn [length] in L.
+      destruct (Nat.ltb_spec (length (k :: keys)) (length (sg :: sigs))) as [C|C]; [cbn [length] in C; lia|].
+      set (code := find_and_delete_ref script [xab]).
+      assert (Sk' : skipn (Z.to_nat (ikey + 1 - 1)) rs = keys ++ tk).
+      { replace (Z.to_nat (ikey + 1 - 1)) with (S (Z.to_nat (ikey - 1))) by lia. eapply skipn_S_tl; exact Sk. }
+      replace (lenZ keys + 1 - 1) with (lenZ keys) by lia.
+      destruct (checksig sg k code).
+      * (* the signature is consumed *)
+        assert (Ss' : skipn (Z.to_nat (isig + 1 - 1)) rs = sigs ++ ts).
+        { replace (Z.to_nat (isig + 1 - 1)) with (S (Z.to_nat (isig - 1))) by lia. eapply skipn_S_tl; exact Ss. }
+        replace (lenZ sigs + 1 - 1) with (lenZ sigs) by lia.
+        destruct (Z.gtb_spec (lenZ sigs) (lenZ keys)) as [G|G]; [unfold lenZ in G; lia|].
+        apply (IH sigs fuel (isig + 1) (ikey + 1) tk ts); try lia; try assumption. cbn [length] in F. lia.
+      * rewrite <- SC.
+        destruct (Z.gtb_spec (lenZ (sg :: sigs)) (lenZ keys)) as [G|G].
+        -- (* more signatures than keys left *)
+           destruct keys as [|k2 keys]; [cbn [ms_walk]; reflexivity|].
+           cbn [ms_walk]. destruct (Nat.ltb_spec (length (k2 :: keys)) (length (sg :: sigs))); [reflexivity|].
+           unfold lenZ in G. cbn [length] in *. lia.
+        -- rewrite (IH (sg :: sigs) fuel isig (ikey + 1) tk ts); try lia; try assumption.
+           ++ reflexivity.
+           ++ unfold lenZ in G. cbn [length] in *. lia.
+           ++ cbn [length] in F. lia.
+Qed.
+
+Definition fad_sigs (sigs : list bytes) (code : bytes) : bytes :=
+  fold_left (fun c sg => find_and_delete_ref c (ref_push sg)) sigs code.
+
+Lemma ms_fad_fold (rs : list bytes) isig ts : 0 < isig ->
+  forall sigs j script ops, 0 <= j ->
+  skipn (Z.to_nat (isig + j - 1)) rs = sigs ++ ts -> Forall small sigs -> raw_iter script = (ops, None) ->
+  ms_fad (length sigs) isig (rev rs) script j = Ok (fad_sigs sigs script) /\
+  exists ops', raw_iter (fad_sigs sigs script) = (ops', None).
+Proof.
+  intros Hi. induction sigs as [|sg sigs IH]; intros j script ops Hj Ss F E.
+  - cbn. split; [reflexivity|eauto].
+  - cbn [length ms_fad fad_sigs fold_left]. cbn [app] in Ss. inversion F as [|? ? Fs F']; subst.
+    replace (- isig - j) with (- (isig + j)) by lia.
+    rewrite (py_nth_rev rs (isig + j) sg) by (try lia; eapply nth_error_skipn_hd; exact Ss). cbn [bind].
+    assert (Hs : lenZ sg < 2^32) by (unfold small in Fs; lia).
+    rewrite (push_of_ref sg Hs). cbn [bind].
+    rewrite (fad_model_ref script (ref_push sg) ops (one_op_push sg Hs) E). cbn [bind].
+    destruct (fad_ref_parses script ops (ref_push sg) (one_op_push sg Hs) E) as (ops1 & E1).
+    apply (IH (j + 1) _ ops1); try lia; try assumption.
+    replace (Z.to_nat (isig + (j + 1) - 1)) with (S (Z.to_nat (isig + j - 1))) by lia. eapply skipn_S_tl; exact Ss.
+Qed.
+Lemma ms_fad_err (rs : list bytes) isig ts sg sigs script ops e :
+  0 < isig -> skipn (Z.to_nat (isig - 1)) rs = (sg :: sigs) ++ ts -> small sg -> raw_iter script = (ops, Some e) ->
+  ms_fad (S (length sigs)) isig (rev rs) script 0 = Err e.
+Proof.
+  intros Hi Ss Fs E. cbn [ms_fad]. replace (- isig - 0) with (- isig) by lia. cbn [app] in Ss.
+  rewrite (py_nth_rev rs isig sg) by (try lia; eapply nth_error_skipn_hd; exact Ss). cbn [bind].
+  assert (Hs : lenZ sg < 2^32) by (unfold small in Fs; lia).
+  rewrite (push_of_ref sg Hs). cbn [bind]. now rewrite (fad_model_err script (ref_push sg) ops e E).
+Qed.
+Lemma fad_sigs_rel sigs : Forall small sigs -> forall tmp sub, code_rel tmp sub -> code_rel (fad_sigs sigs tmp) (fad_sigs sigs sub).
+Proof.
+  induction 1 as [|sg sigs Fs F IH]; intros tmp sub R; [exact R|]. cbn [fad_sigs fold_left]. apply IH.
+  destruct R as [->| ->]; [left; reflexivity|right].
+  assert (Hs : lenZ sg < 2^32) by (unfold small in Fs; lia).
+  apply fad_ref_cons_op; [change (b2z xab) with 171; lia|now apply push_head_not_codesep].
+Qed.
+Lemma code_rel_codesep tmp sub : code_rel tmp sub -> find_and_delete_ref tmp [xab] = find_and_delete_ref sub [xab].
+Proof. intros [->| ->]; [reflexivity|apply fad_ref_head_byte]. Qed.
+
+Lemma skipn_skipn {A} (a b : nat) (l : list A) : skipn a (skipn b l) = skipn (a + b) l.
+Proof.
+  revert l. induction b as [|b IH]; intros l; [now rewrite Nat.add_0_r|].
+  destruct l as [|x l]; [now rewrite !skipn_nil|]. rewrite Nat.add_succ_r. cbn [skipn]. apply IH.
+Qed.
+Lemma skipn_S_cons {A} n (x : A) l : skipn (S n) (x :: l) = skipn n l.
+Proof. reflexivity. Qed.
+Lemma is_nil_rev_cons {A} (x : A) l : is_nil (rev (x :: l)) = false.
+Proof. cbn [rev]. destruct (rev l); reflexivity. Qed.
+Lemma bytes_eqb_nil d : bytes_eqb d [] = is_nil d.
+Proof. destruct d; reflexivity. Qed.
+Lemma lenZ_firstn_full {A} (l : list A) n : 0 <= n <= lenZ l -> lenZ (firstn (Z.to_nat n) l) = n.
+Proof. intros H. unfold lenZ in *. rewrite firstn_length_le by lia. lia. Qed.
+Lemma skipn_cons_split {A} (l : list A) n x t : skipn n l = x :: t -> lenZ l = Z.of_nat n + 1 + lenZ t.
+Proof.
+  intros E. pose proof (f_equal (@length A) E) as L. rewrite skipn_length in L. cbn [length] in L. unfold lenZ. lia.
+Qed.
+
+Lemma sim_multisig scriptIn r pb o rest vfy ops :
+  let tmp := py_slice scriptIn pb (lenZ scriptIn) in
+  raw_iter tmp = (ops, None) -> code_rel tmp (r_sub r) -> Forall small (r_stack r) ->
+  ref_kind (sop_opcode o) = KMultisig vfy ->
+  sim1 (exec scriptIn (abs r pb) o (KMultisig vfy)) (exec_op (sop_opcode o) rest r) pb.
+Proof.
+  intros tmp E R HS K. unfold ScriptRef.exec_op. rewrite K. unfold ScriptEval.exec. fold tmp.
+  unfold check_multisig, abs, sim1. cbn [stack altstack vfExec pbegincodehash nOpCount].
+  destruct r as [rs al vf sub nop]. cbn [r_stack r_alt r_vf r_sub r_nop with_stack] in *.
+  change MAX_SCRIPT_OPCODES with 201.
+  rewrite len_rev. destruct rs as [|nv r1].
+  { reflexivity. }
+  destruct (Z.ltb_spec (len (nv :: r1)) 1); [exfalso; lens|]. cbn [bind].
+  rewrite (py_nth_rev _ 1 nv) by (first [lia|reflexivity]). cbn [bind].
+  inversion HS as [|? ? Snv S1]; subst. unfold small in Snv.
+  rewrite (cast_to_bignum_ref nv) by lia. destruct (ref_num nv) as [n|] eqn:En; [|reflexivity]. cbn [bind].
+  destruct ((n <? 0) || (n >? 20)) eqn:Rn; [reflexivity|]. cbn [bind].
+  apply orb_false_iff in Rn as [Rn1 Rn2]. apply Z.ltb_ge in Rn1. rewrite Z.gtb_ltb in Rn2. apply Z.ltb_ge in Rn2.
+  destruct (nop + n >? 201); [reflexivity|]. cbn [bind].
+  assert (LS : len (nv :: r1) = lenZ r1 + 1) by (unfold len, lenZ; cbn [length]; lia). rewrite LS.
+  replace (1 + 1 + n) with (n + 2) by lia.
+  destruct (Z.ltb_spec (lenZ r1 + 1) (n + 2)) as [C1|C1]; destruct (Z.ltb_spec (lenZ r1) (n + 1)) as [C1'|C1']; try lia; [reflexivity|].
+  cbn [bind].
+  destruct (skipn (Z.to_nat n) r1) as [|mv r2] eqn:E2.
+  { exfalso. pose proof (f_equal (@length bytes) E2) as L. rewrite skipn_length in L. cbn [length] in L. unfold lenZ in *. lia. }
+  pose proof (skipn_cons_split r1 (Z.to_nat n) mv r2 E2) as L1. rewrite Z2Nat.id in L1 by lia.
+  rewrite (py_nth_rev (nv :: r1) (n + 2) mv).
+  2: lia.
+  2:{ replace (Z.to_nat (n + 2 - 1)) with (S (Z.to_nat n)) by lia. cbn [nth_error]. eapply nth_error_skipn_hd; exact E2. }
+  cbn [bind].
+  assert (S2 : Forall small (mv :: r2)) by (rewrite <- E2; now apply Forall_skipn).
+  inversion S2 as [|? ? Smv S2']; subst. unfold small in Smv.
+  rewrite (cast_to_bignum_ref mv) by lia. destruct (ref_num mv) as [m|] eqn:Em; [|reflexivity]. cbn [bind].
+  destruct ((m <? 0) || (m >? n)) eqn:Rm; [reflexivity|]. cbn [bind].
+  apply orb_false_iff in Rm as [Rm1 Rm2]. apply Z.ltb_ge in Rm1. rewrite Z.gtb_ltb in Rm2. apply Z.ltb_ge in Rm2.
+  replace (n + 2 + 1 + m - 1) with (n + m + 2) by lia. replace (n + 2 + 1 + m) with (n + m + 3) by lia.
+  destruct (Z.ltb_spec (lenZ r2) (m + 1)) as [C2|C2].
+  { destruct (Z.ltb_spec (lenZ r1 + 1) (n + m + 2)); [reflexivity|].
+    destruct (Z.ltb_spec (lenZ r1 + 1) (n + m + 3)); [reflexivity|lia]. }
+  destruct (Z.ltb_spec (lenZ r1 + 1) (n + m + 2)); [lia|]. destruct (Z.ltb_spec (lenZ r1 + 1) (n + m + 3)); [lia|].
+  cbn [bind].
+  destruct (skipn (Z.to_nat m) r2) as [|dummy r3] eqn:E3.
+  { exfalso. pose proof (f_equal (@length bytes) E3) as L. rewrite skipn_length in L. cbn [length] in L. unfold lenZ in *. lia. }
+  set (keys := firstn (Z.to_nat n) r1). set (sigs := firstn (Z.to_nat m) r2).
+  assert (Lk : lenZ keys = n) by (apply lenZ_firstn_full; lia).
+  assert (Lsg : lenZ sigs = m) by (apply lenZ_firstn_full; lia).
+  assert (Fsg : Forall small sigs) by (now apply Forall_firstn).
+  (* the signature pushes are removed one by one *)
+  assert (SS : skipn (Z.to_nat (n + 2 + 1 + 0 - 1)) (nv :: r1) = sigs ++ dummy :: r3).
+  { replace (Z.to_nat (n + 2 + 1 + 0 - 1)) with (S (1 + Z.to_nat n)) by lia. rewrite skipn_S_cons.
+    rewrite <- skipn_skipn, E2. rewrite skipn_S_cons. cbn [skipn].
+    subst sigs. rewrite <- E3. symmetry. apply firstn_skipn. }
+  replace (Z.to_nat m) with (length sigs) by (unfold lenZ in Lsg; lia).
+  destruct (ms_fad_fold (nv :: r1) (n + 2 + 1) (dummy :: r3) ltac:(lia) sigs 0 tmp ops ltac:(lia) SS Fsg E) as (MF & ops' & E').
+  fold tmp. rewrite MF. cbn [bind].
+  (* the walk *)
+  assert (SS' : skipn (Z.to_nat (n + 2 + 1 - 1)) (nv :: r1) = sigs ++ dummy :: r3) by (replace (n + 2 + 1 - 1) with (n + 2 + 1 + 0 - 1) by lia; exact SS).
+  assert (SK : skipn (Z.to_nat (1 + 1 - 1)) (nv :: r1) = keys ++ mv :: r2).
+  { cbn [Z.to_nat Z.add Z.sub Pos.add Pos.sub skipn]. change (Z.to_nat 1) with 1%nat. cbn [skipn]. subst keys. rewrite <- E2. symmetry. apply firstn_skipn. }
+  replace (ms_loop checksig (S (Z.to_nat n)) vfy (rev (nv :: r1)) (fad_sigs sigs tmp) (n + 2 + 1) (1 + 1) m n)
+    with (ms_loop checksig (S (Z.to_nat n)) vfy (rev (nv :: r1)) (fad_sigs sigs tmp) (n + 2 + 1) (1 + 1) (lenZ sigs) (lenZ keys))
+    by (rewrite Lsg, Lk; reflexivity).
+  rewrite (ms_loop_walk (nv :: r1) (fad_sigs sigs tmp) ops' vfy E' keys sigs (S (Z.to_nat n)) (n + 2 + 1) (1 + 1) (mv :: r2) (dummy :: r3));
+    try lia; try assumption; try (unfold lenZ in *; lia).
+  cbv zeta. rewrite (code_rel_codesep _ _ (fad_sigs_rel sigs Fsg tmp sub R)).
+  fold (fad_sigs sigs sub).
+  set (ok := ms_walk checksig sigs keys (find_and_delete_ref (fad_sigs sigs sub) [xab])).
+  (* the pops *)
+  assert (POP : pop_n (Z.to_nat (n + m + 2)) (rev (nv :: r1)) = Ok (rev (dummy :: r3))).
+  { rewrite pop_n_rev by (cbn [length]; unfold lenZ in *; lia). do 2 f_equal.
+    replace (Z.to_nat (n + m + 2)) with (S (S (Z.to_nat m) + Z.to_nat n)) by lia. rewrite skipn_S_cons.
+    rewrite <- skipn_skipn, E2. rewrite skipn_S_cons. exact E3. }
+  assert (TAIL : forall success : bool,
+    (do st1 <- pop_n (Z.to_nat (n + m + 2)) (rev (nv :: r1));
+     do _ <- (if negb (is_nil st1) && f_nulldummy fl then do d <- py_nth st1 (-1); if negb (bytes_eqb d []) then @fail unit else Ok tt else Ok tt);
+     do dr <- py_pop st1;
+     Ok {| stack := if negb vfy then if success then push (snd dr) [x01] else push (snd dr) [] else snd dr;
+           altstack := rev al; vfExec := rev vf; pbegincodehash := pb; nOpCount := nop + n |})
+    = if f_nulldummy fl && negb (is_nil dummy) then Err EvalErr
+      else Ok {| stack := rev (if negb vfy then of_bool success :: r3 else r3); altstack := rev al; vfExec := rev vf;
+                 pbegincodehash := pb; nOpCount := nop + n |}).
+  { intros success. rewrite POP. cbn [bind]. rewrite is_nil_rev_cons. cbn [negb andb].
+    destruct (f_nulldummy fl); cbn [andb bind].
+    - rewrite (py_nth_rev _ 1 dummy) by (first [lia|reflexivity]). cbn [bind]. rewrite bytes_eqb_nil.
+      destruct (is_nil dummy); cbn [negb bind]; [|reflexivity].
+      rewrite py_pop_rev. cbn [bind snd]. destruct vfy, success; cbn [negb]; rewrite ?push_rev; reflexivity.
+    - rewrite py_pop_rev. cbn [bind snd]. destruct vfy, success; cbn [negb]; rewrite ?push_rev; reflexivity. }
+  destruct ok.
+  - cbn [bind]. rewrite (TAIL true). destruct (f_nulldummy fl && negb (is_nil dummy)); [reflexivity|].
+    destruct vfy; reflexivity.
+  - destruct vfy.
+    + cbn [bind]. destruct (f_nulldummy fl && negb (is_nil dummy)); reflexivity.
+    + cbn [bind]. rewrite (TAIL false). destruct (f_nulldummy fl && negb (is_nil dummy)); reflexivity.
+Qed.
 End Sig.
